@@ -158,7 +158,11 @@ class ColumnBackend(ArraySchemaBackend):
                 if schema.parsers and validated_column is not None:
                     # (None: the column failed validation, the errors were
                     # collected and there is no parsed column to write back)
-                    check_obj[column_name] = validated_column
+                    check_obj[column_name] = (
+                        validated_column[column_name]
+                        if is_table(validated_column)
+                        else validated_column
+                    )
 
         if lazy and error_handler.collected_errors:
             raise SchemaErrors(
